@@ -81,8 +81,9 @@ Definition prim_scalar (k : PrimKind) (v : Value) : IRes :=
   | PInt i, VChar c => if in_int i c then IOk (LInt c) else IReject
   | PF32, VF32 x => IOk (LInt x) | PF64, VF64 x => IOk (LInt x)
   | PF16, (VF32 _ | VF64 _) => ISkip
-  | PF32, VF64 _ => ISkip
-  | PF64, VF32 _ => ISkip
+  (* the other float width is cast: narrowing rounds to nearest (ties to even, overflow to infinity), widening is exact *)
+  | PF32, VF64 x => IOk (LInt (f32_of_f64 x))
+  | PF64, VF32 x => IOk (LInt (f64_of_f32 x))
   (* FloatBuilder: integers of every width and chars are cast (`v as f32` / `v as f64`): nearest, ties to even *)
   | PF32, (VInt _ z | VChar z) => IOk (LInt (f32_of_int z))
   | PF64, (VInt _ z | VChar z) => IOk (LInt (f64_of_int z))
